@@ -319,6 +319,22 @@ pub fn check_messages(prop: &str, scenario: &Scenario, model: &Model, res: &Exec
                 v.push(Violation::new(prop, "definition-text-mismatch", format!("op {i} {path}@{offset}: {msg}")));
             }
         }
+        // ... and every entry of an outline, read against the text of the document the outline
+        // is for, is the very name it is labelled with (an outline has no URI per entry: each
+        // range is in the requested document by definition)
+        if ranges && *kind == ReqKind::DocumentSymbol && r["result"].is_array() {
+            if let Some(msg) = outline_text_mismatch(model, state, path, &r["result"]) {
+                v.push(Violation::new(prop, "outline-text-mismatch", format!("op {i} {path}: {msg}")));
+            }
+        }
+        // ... and a hint answered for a part of the document is one of the hints of the whole
+        // document, at the same place (asking for less never moves a hint)
+        if *kind == ReqKind::InlayHint && *offset != 0 && model.after_close.get(i).is_none() {
+            let whole: BTreeSet<String> = host.expected(*kind, path, 0, ranges).unwrap_or_default().into_iter().collect();
+            if let Some(stray) = got.as_ref().and_then(|g| g.iter().find(|h| !whole.contains(*h))) {
+                v.push(Violation::new(prop, "partial-range-hint-not-in-whole", format!("op {i} {path}@{offset}: hint {stray:?} is not among the hints of the whole document")));
+            }
+        }
         if got != expected {
             if let Some(alt) = model.after_close.get(i) {
                 // sent after a didClose: the answer may also be the one for the closed state
@@ -419,6 +435,45 @@ fn definition_text_mismatch(model: &Model, state: usize, path: &str, offset: u32
         }
         _ => Some(format!("the range sent does not exist in the text of {target_path}")),
     }
+}
+
+/// Every entry of a documentSymbol answer: its range exists in the document's text and denotes
+/// the entry's name (entries named `anonymous_<n>` cover a whole statement: existence only).
+fn outline_text_mismatch(model: &Model, state: usize, path: &str, result: &Value) -> Option<String> {
+    let st = model.states.get(state)?;
+    let texts = st.overlay();
+    let src = texts.get(&PathBuf::from(path))?;
+    let map = crate::refmap::RefMap::new(src);
+    fn walk(map: &crate::refmap::RefMap, src: &str, sym: &Value) -> Option<String> {
+        let name = sym["name"].as_str()?;
+        for key in ["range", "selectionRange"] {
+            let r = &sym[key];
+            let a = map.offset_of(r["start"]["line"].as_u64()? as u32, r["start"]["character"].as_u64()? as u32);
+            let b = map.offset_of(r["end"]["line"].as_u64()? as u32, r["end"]["character"].as_u64()? as u32);
+            match (a, b) {
+                (Some(a), Some(b)) if a <= b && src.is_char_boundary(a) && src.is_char_boundary(b) => {
+                    let anonymous = name.strip_prefix("anonymous_").map(|n| !n.is_empty() && n.bytes().all(|c| c.is_ascii_digit())).unwrap_or(false);
+                    if !anonymous && &src[a..b] != name {
+                        let got: String = src[a..b].chars().take(40).collect();
+                        return Some(format!("the {key} of entry {name:?} denotes {got:?} in this document"));
+                    }
+                }
+                _ => return Some(format!("the {key} of entry {name:?} does not exist in this document")),
+            }
+        }
+        for c in sym["children"].as_array().map(|v| v.as_slice()).unwrap_or(&[]) {
+            if let Some(m) = walk(map, src, c) {
+                return Some(m);
+            }
+        }
+        None
+    }
+    for sym in result.as_array()? {
+        if let Some(m) = walk(&map, src, sym) {
+            return Some(m);
+        }
+    }
+    None
 }
 
 fn cross_file(expected: &Option<Vec<String>>, path: &str) -> bool {
